@@ -27,7 +27,7 @@ def ob_sql_replace(p0: bool, t0: int, g0: int, p1: bool, t1: int, g1: int, p2: b
     pre: 0 <= g0 < 6 and 0 <= g1 < 6 and 0 <= g2 < 6
     pre: (30000 <= KA < 40000) or KA == 10000 or (g0 == 0 and g1 == 0 and g2 == 0)
     pre: not p0 and g0 < 2 and (t1 == t0 or (THOROUGH and t1 == t2))
-    pre: (THOROUGH and g1 < 4) or (not p1 and g1 in (0, 1) and g2 in (0, 1, 4))
+    pre: not p1 and ((THOROUGH and g1 < 4 and g2 in (0, 1, 4, 5)) or (g1 in (0, 1) and g2 in (0, 1, 4)))
     post: _.startswith("ok")
     """
     logging.disable(logging.CRITICAL)
